@@ -207,4 +207,14 @@ theorem patterns_complete {pat : List Tok} (h : Pats pat) (rest : List Tok) :
   | @one w hw => simp [patterns, hw]
   | @more w r hw _ ih => simp [patterns, hw, ih]
 
+theorem nls_head_ne {k : Nat} {t : Tok} {r : List Tok} (h : t ≠ nl) :
+    (nls k ++ t :: r).head? ≠ some nl ∨ k ≠ 0 := by
+  cases k with
+  | zero => left; simpa [nls] using h
+  | succ k => right; simp
+
+theorem skipNL_nls_cons {k : Nat} {t : Tok} {r : List Tok} (h : t ≠ nl) :
+    skipNL (nls k ++ t :: r) = t :: r := by
+  rw [skipNL_nls_append]; exact skipNL_of_head (by simpa using h)
+
 end ShVerif.C12
